@@ -4,6 +4,7 @@ EXTENDS Paths
 
 c_Empty == {{}}                                  \* start the orderly generation from the empty graph
 c_Depths4 == <<0, 1, 2, 3, 4, 7>>                \* 0 = default, 7 = beyond the clamp
+c_DepthsAlg == <<0, 1, 2, 3, 7>>                \* design-level runs on 4 nodes (no distance exceeds 3 there)
 c_Depths7 == <<0, 1, 2, 3, 4, 5, 6, 7, 9>>
 c_Walks4 == UNION {[1..k -> Rels] : k \in 1..4}  \* every relation path of 1..4 hops
 c_WalksShort == {[i \in 1..k |-> 1] : k \in {1, 3}} \cup {[i \in 1..4 |-> IF i % 2 = 1 THEN 1 ELSE 2]}
@@ -13,16 +14,19 @@ c_AllRels == SUBSET Rels
 \* hand-made family on 7 nodes (depth clamp 5, default depths, paths longer than on 4 nodes):
 \* chain 1->2->...->7 (r), ring, two-way chain, chain with alternating relations,
 \* chain with a dead shortcut 1->7, chain with a dead middle edge, self-loop on 1 plus chain
-E(s, t, r) == Enc(s, t, r, FALSE)
-X(s, t, r) == Enc(s, t, r, TRUE)
+E(s, t, r) == Enc(s, t, r, 0)       \* live edge
+X(s, t, r) == Enc(s, t, r, 1)       \* soft-deleted edge
+Y(s, t, r) == Enc(s, t, r, 2)       \* second soft-deleted version
 c_Chains == { {E(i, i + 1, 1) : i \in 1..6},
               {E(i, i + 1, 1) : i \in 1..6} \cup {E(7, 1, 1)},
               {E(i, i + 1, 1) : i \in 1..6} \cup {E(i + 1, i, 1) : i \in 1..6},
               {E(i, i + 1, IF i % 2 = 1 THEN 1 ELSE 2) : i \in 1..6},
               {E(i, i + 1, 1) : i \in 1..6} \cup {X(1, 7, 1)},
               ({E(i, i + 1, 1) : i \in 1..6} \ {E(3, 4, 1)}) \cup {X(3, 4, 1)},
-              {E(1, 1, 1)} \cup {E(i, i + 1, 1) : i \in 1..6} }
+              {E(1, 1, 1)} \cup {E(i, i + 1, 1) : i \in 1..6},
+              {E(i, i + 1, 1) : i \in 1..6} \cup {X(3, 4, 1), Y(3, 4, 1), X(5, 6, 1)} }
 \* self-referential graphs on 4 nodes for the traversal cap (walks of 9..12 hops exist)
 c_CapGraphs == { {E(1, 1, 1)}, {E(1, 1, 1), E(1, 1, 2)}, {E(1, 1, 1), E(1, 2, 1), E(2, 1, 1)},
-                 {E(1, 2, 1), E(2, 1, 2)}, {E(1, 2, 1), E(2, 3, 1), E(3, 1, 1), X(3, 3, 1)} }
+                 {E(1, 2, 1), E(2, 1, 2)}, {E(1, 2, 1), E(2, 3, 1), E(3, 1, 1), X(3, 3, 1)},
+                 {E(1, 1, 1), X(1, 1, 1), Y(1, 1, 1), E(1, 2, 1), X(1, 2, 1)} }
 =============================================================================
